@@ -194,8 +194,33 @@ func (e *Engine) call(fr *frame, st *State, c *ast.CallExpr, k func(st *State, r
 					ev.Args = append(ev.Args, v.T)
 					ev.Sorts = append(ev.Sorts, v.Ty.Sort())
 				}
+				pos := e.xlog(st, vobj.Name())
 				e.xappend(st, vobj.Name(), ev)
 				st.dirty = true
+				sig := vobj.Type().Underlying().(*types.Signature)
+				if sig.Results().Len() == 1 {
+					// the value the callback returns: cres("<name>", i) of the i-th call, an otherwise unconstrained value of its type
+					rty := e.typeOf(sig.Results().At(0).Type())
+					fnName := "cres_" + strings.NewReplacer(".", "_", "-", "_").Replace(vobj.Name())
+					e.extraFn["cres:"+fnName] = fmt.Sprintf("(declare-fun %s (Int) Any)", fnName)
+					boxed := Val{TV: spec.TV{T: sx.App(fnName, (&pos).LenT()), Ty: spec.Type{K: spec.KAny}}}
+					switch rty.K {
+					case spec.KInt:
+						r := e.uf("unbox_Int", rty, boxed)
+						if b, ok := sig.Results().At(0).Type().Underlying().(*types.Basic); ok && e.Go64 {
+							switch b.Kind() {
+							case types.Uint32:
+								st.facts = append(st.facts, sx.App("<=", sx.Int(0), r.T), sx.App("<=", r.T, sx.IntS("4294967295")))
+							case types.Uint64, types.Uint:
+								st.facts = append(st.facts, sx.App("<=", sx.Int(0), r.T), sx.App("<=", r.T, sx.IntS("18446744073709551615")))
+							}
+						}
+						k(st, []Val{r})
+					default:
+						k(st, []Val{e.freshOf(rty, "cb")})
+					}
+					return
+				}
 				k(st, nil)
 			})
 			return
@@ -348,6 +373,12 @@ func (e *Engine) call(fr *frame, st *State, c *ast.CallExpr, k func(st *State, r
 				r := e.uf("crypto_sha256_Sum256", spec.Type{K: spec.KNB}, vs[0])
 				st.facts = append(st.facts, sx.App("=", sx.App("str.len", r.bytes()), sx.Int(32)), sx.Not(sx.App("isnull", r.T)))
 				k(st, []Val{r})
+			})
+			return
+		case "github.com/nspcc-dev/neo-go/pkg/rpcclient/actor.DefaultCheckerModifier":
+			// assumed (A10): checks the invocation result and leaves the transaction alone; its verdict is an opaque error value
+			e.evalList(fr, st, c.Args, func(st *State, vs []Val) {
+				k(st, []Val{e.uf("actor_DefaultCheckerModifier", spec.Type{K: spec.KAny}, vs[0])})
 			})
 			return
 		case "bytes.HasPrefix":
@@ -842,7 +873,9 @@ func (e *Engine) stmt(fr *frame, st *State, s ast.Stmt, k func(st *State)) {
 			op := map[token.Token]token.Token{token.ADD_ASSIGN: token.ADD, token.SUB_ASSIGN: token.SUB, token.MUL_ASSIGN: token.MUL}[s.Tok]
 			e.eval(fr, st, s.Lhs[0], func(st *State, l Val) {
 				e.eval(fr, st, s.Rhs[0], func(st *State, r Val) {
-					e.assign(fr, st, s.Lhs[0], e.binop(op, l, r))
+					res := e.binop(op, l, r)
+					e.checkOverflow(fr, st, s.Lhs[0], res)
+					e.assign(fr, st, s.Lhs[0], res)
 					k(st)
 				})
 			})
